@@ -39,3 +39,11 @@ reg("C01",
     explanation="all shapes of the Conjure type grammar up to the depth bound x value sets; each state is serialized through 4 JSON + 2 Smile entry points and deserialized through client/server x str/slice/reader(short reads)/mut-slice; JSON and Smile trees read back with plain serde_json/serde_smile are compared with the reference encoding",
     level_text="Bounded exhaustive exploration of the shape grammar (every re-wrapping point of the wrappers is reached in every nesting up to the bound) executed on the implementation itself, with a reference model of the wire encoding as oracle. There is no separate model to bind: every state is run on the real code.",
     level_note="Trusted: serde_json / serde_smile as readers of the produced bytes; the dynamic (Shape, Val) serde implementation (bound to derive/std impls by the static-twin conformance check); the reference encoders in vcommon::cmodel.")
+
+reg("C05",
+    packages=["shapes"], bin="shapes", level="model_checking", engine="E1 shapes",
+    technique="explicit-state enumeration of (shape, value, object node, position, injected value) states, each executed on the real client/server deserializers (JSON+Smile, all sources)",
+    design_ref="DESIGN.md §3 C05",
+    explanation="every shape with an object node up to the depth bound; an unknown field holding each of 12 JSON values is inserted first/between/last into each object node (one and two injections); the document is read by every client and server path, dynamic structs and derive-based twins",
+    level_text="Bounded exhaustive exploration of nesting contexts x injection points on the implementation: every container path below deserialize_struct (seq, map value, option, newtype/alias, nested struct) is reached at every depth up to the bound, for JSON and Smile and every input source.",
+    level_note="Trusted: the Conjure serializers to render the injected documents (guarded: a case is only judged if its un-injected document round-trips); derive-based twins bind the dynamic struct to serde derive. Generated Conjure objects are covered by the E2 part when built.")
